@@ -164,7 +164,7 @@ def explore(mod_name, func_name, params, opts):
                 'witness': witness if witness is None else dict(list(witness.items())[:8])})
         # cross-validation of the path against the real implementation
         if validate and witness is not None and path_ok:
-            cr = run_concrete(fn, params, witness, opts)
+            cr = run_concrete(fn, params, witness, dict(opts, strict=False))
             if cr['skipped']:
                 pass
             elif cr['exception'] is None and all(c['ok'] for c in cr['claims']):
